@@ -78,6 +78,18 @@ func w2History(r *prng.R, matcher int, special int) []w2call {
 				w2call{Op: 'W', Fam: "text", N: 1000, Seed: r.U64()})
 			break
 		}
+		if special >= 2000 && special < 3000 {
+			// literals that compress to three quarters, then - (special-2000) bytes in front of the
+			// 64 KiB compressed-size limit of the first chunk - a run of up to 120 bytes held
+			// back by the range coder (see gen "carry:"): the space the writer reserves at the
+			// end of a chunk has to cover what the coder has not emitted yet
+			h = append(h, w2call{Op: 'W', Fam: fmt.Sprintf("carry:302:%d:120:%s:64", -(65536 - (special - 2000)), []string{"c", "n"}[special%2]), Seed: r.U64()})
+			if r.Bool() {
+				h = append(h, w2call{Op: 'F'})
+			}
+			wr("text", 500)
+			break
+		}
 		if special >= 1000 && special < 2000 {
 			// a little more than one chunk of data that is very nearly incompressible: sweeps
 			// the decision between a compressed and an uncompressed chunk
@@ -131,9 +143,12 @@ func checkC08(c *ev.Ctx) {
 		nedge = 400 // five different noise seeds per offset
 	}
 	nhist := n
+	// appended behind the n histories: the sweep of a held-back run across the end of the first
+	// chunk (ncarry offsets) and the history with the 64 MiB dictionary
+	ncarry := 32
 	c.MinEvals(int64(n / 2))
 	defaultCtors(c, "lzma2")
-	par(n, func(i int) {
+	par(n+ncarry+1, func(i int) {
 		id := fmt.Sprintf("h%d", i)
 		noteCase(id)
 		if !want(c, id) {
@@ -176,7 +191,13 @@ func checkC08(c *ev.Ctx) {
 		if i == nhist-nedge-nthin-1 || (thorough(c) && i%3000 == 77) {
 			special = 900
 		}
-		if i == nhist-nedge-nthin-2 {
+		if ce := i - nhist; ce >= 0 && ce < ncarry {
+			special, matcher = 2000+4*ce, 0
+			cfg.Matcher, cfg.DictCap, cfg.BufSize = lzma.HashTable4, 1<<20, []int{4096, 273, 65536}[ce%3]
+			pp = [2]int{3, 0}
+			cfg.Properties = &lzma.Properties{LC: 3, LP: 0, PB: 2}
+		}
+		if i == nhist+ncarry {
 			special, matcher = 901, 0
 			cfg.Matcher, cfg.DictCap, cfg.BufSize = lzma.HashTable4, 64<<20, 4096
 		}
@@ -184,7 +205,7 @@ func checkC08(c *ev.Ctx) {
 			special, matcher = 1000+thin, thin%2
 			cfg.Matcher, cfg.DictCap, cfg.BufSize = lzma.MatchAlgorithm(thin%2), []int{1 << 20, 1 << 17, 8 << 20}[thin%3], 4096
 		}
-		if edge := i - (nhist - nedge); edge >= 0 {
+		if edge := i - (nhist - nedge); edge >= 0 && edge < nedge {
 			// the last nedge histories sweep one expensive operation across the end of a chunk
 			// (same data and properties for all offsets of a sweep, so that the end of the chunk
 			// is at the same place in all of them)
@@ -351,6 +372,9 @@ func checkC08(c *ev.Ctx) {
 					ks += k + "+"
 				}
 			}
+		}
+		if special >= 2000 && special < 3000 {
+			noteCarry(c, "carry:", sink.Buf)
 		}
 		sh := strings.Join(shapeOnly(hist), "")
 		c.Eval(fmt.Sprintf("%s|d%s|b%d|m%d|%s", sh, sizeClass(cfg.DictCap), cfg.BufSize, matcher, ks), len(W) > 0)
